@@ -128,3 +128,12 @@ Theorem C12_unitary_is_symmetric_su2 odd r0 rt phi0 rest theta :
   exists x y z : R, Ux_at phi0 rest theta = symS (x, y, z).
 Proof. exact (sym_unitary_form odd r0 rt phi0 rest theta). Qed.
 Print Assumptions C12_unitary_is_symmetric_su2.
+
+(* ... and its two read-outs <0|U|0> = x + i y and <+|U|+> = x + i z give all three parameters: comparing gen_unitary's (0,0) entry and
+   the sum of its four entries with the verified evaluators (plus the relations above on the returned matrices) pins the whole matrix *)
+Theorem C12_readouts_determine_unitary odd r0 rt phi0 rest theta :
+  sym_full_q odd (r0 :: rt) = Some (phi0 :: rest) ->
+  exists x y z : R, Ux_at phi0 rest theta = symS (x, y, z) /\
+    m00 (Ux_at phi0 rest theta) = (x, y) /\ resp_x phi0 rest theta = (x, z).
+Proof. exact (sym_unitary_readouts odd r0 rt phi0 rest theta). Qed.
+Print Assumptions C12_readouts_determine_unitary.
